@@ -24,6 +24,7 @@ LEVELS = {
     "C17": "model_checking",
     "C18": "model_checking",
     "C19": "model_checking",
+    "C07": "model_checking",
 }
 
 # property -> vlib module with run_property(prop, tier, report)
@@ -38,6 +39,7 @@ RUNNERS = {
     "C14": "front",
     "C18": "fslookup",
     "C19": "cli",
+    "C07": "types",
 }
 
 
